@@ -42,3 +42,12 @@ replace vs => ../vs
 EOM
 cp $V/harness/go.mod $S/harness/go.mod
 (cd $S/harness && go build -tags verif -o $S/vworker .)
+if [ -n "$VERIF_NATIVE" ]; then
+  # <scratch>/vnative: the same scenario bodies against the UN-instrumented tree, real runtime
+  mkdir -p $S/nat/scipipe/components $S/nat/harness $S/nat/vs $S/natbin
+  cp $R/go.mod $R/*.go $S/nat/scipipe/ && cp $R/components/*.go $S/nat/scipipe/components/
+  rm -f $S/nat/scipipe/*_test.go $S/nat/scipipe/components/*_test.go
+  cp $V/engine/vs/native.go $V/engine/vs/go.mod $S/nat/vs/
+  cp $V/harness/*.go $V/harness/go.mod $S/nat/harness/
+  (cd $S/nat/harness && go build -o $S/vnative . && ln -sf $S/vnative $S/natbin/vcmd)
+fi
